@@ -468,11 +468,17 @@ inline void check(History &h, Result &R)
       }
       else if (r.code == C.timeout || r.code == C.peerClosed)
       {
-        bool pcOk = r.code == C.peerClosed && afterClose && reported;
-        if (afterReport && !pcOk)
-          R.v("C03:overflow:not-sticky:" + codeName(r.code), "after BufferOverflow had been reported a later receiveSync returned " + codeName(r.code) + " instead");
+        // sticky "until close": once the close has been reported the entry may be reclaimed, so a
+        // call after it may see PeerClosed or (entry gone) Timeout - but only if the overflow HAD been
+        // reported. An overflow nobody was ever told about must not vanish with the close.
+        bool startedAfterClose = h.close.happened && r.s0 > h.close.s1;
+        bool tolerated = afterClose && reported;
+        if (afterReport && !tolerated)
+          R.v("C03:overflow:not-sticky:" + codeName(r.code), "after BufferOverflow had been reported a later receiveSync returned " + codeName(r.code) + " instead (session not closed)");
         else if (afterGap && !reported)
-          R.v("C03:overflow:not-reported:" + codeName(r.code), "bytes were dropped in Sync mode, yet a receiveSync that started afterwards returned " + codeName(r.code) + " without any BufferOverflow report",
+          R.v(std::string("C03:overflow:not-reported") + (startedAfterClose ? "-after-close:" : ":") + codeName(r.code),
+              "bytes were dropped in Sync mode, yet a receiveSync that started afterwards returned " + codeName(r.code) + " without any BufferOverflow report" +
+                  (startedAfterClose ? " (call started after the close had been reported)" : ""),
               "{" + jnum("gap_at", firstGapPos) + "}");
       }
     }
